@@ -1,3 +1,4 @@
+import IrVerif.Model.Sort
 /-!
 # IR kernel model (shared by C01 / C06)
 
@@ -21,10 +22,16 @@ error points of the model.
 The model follows the code after the validate-first fixes (repo commits a2307a6, 5109842, 8e991c5).
 One deliberate difference remains: the model rejects `Node(outputs=[initializer])` (needed for
 "initializers have no producing node"), the code still accepts it (known finding D12b).  The composite
-convenience calls (`rauwMany`, `replaceNodesAndValues`) keep the effects of the sub-calls before a
-rejected one, exactly like the code (known findings D82, D83); `renameValues` and the bulk initializer
-update are all-or-nothing.  `Graph.sort` enters as `sortOk orders` / `sortCycle`: which permutation is
-produced is the subject of C12, here it is an argument that is only applied when it is a permutation.
+convenience calls (`rauwMany`, `replaceNodesAndValues`, `tapeInitializer`, `builderNode`) keep the effects of
+the sub-calls before a rejected one, exactly like the code (known findings D82, D83); `renameValues` and the
+bulk initializer update are all-or-nothing.
+
+`Graph.sort` is `Op.sort g`: the model reads the object tree `RecursiveGraphIterator` walks off its own state
+(`treeOf`: node sequences, producers of the node inputs, graph-valued attributes in dict order) and runs
+C12's `Sort.sortModel` (`Model/Sort.lean`) on it.  `sortOk orders` / `sortCycle` (a sort whose result is
+given as an argument and only applied when it is a permutation) remain in the alphabet; `C01_sort_step`
+proves that the real sort never meets that guard.  Node attributes are model state (`NodeS.attrs`); no
+clause of the invariant reads them (`C01_attr_frame`).
 -/
 namespace IrVerif.Kernel
 
@@ -69,6 +76,11 @@ structure NodeS where
   graph : Option Nat := none
   name : Option String := none
   opType : String := ""
+  /-- `Node.attributes` (`_graph_containers.py:398-411`, an ordered dict): every key in dict order with the
+  graphs its attribute holds (`GRAPH`: one, `GRAPHS`: several, any other attribute type: none).  No clause
+  of the invariant reads this field (`Graph` / `Attr` objects carry no back pointer to the node that holds
+  them); it is what `Graph.sort` / `RecursiveGraphIterator` traverse (`treeOf`). -/
+  attrs : List (String × List Nat) := []
   deriving DecidableEq, Repr
 
 instance : Inhabited NodeS := ⟨{}⟩
@@ -437,7 +449,20 @@ inductive IOMut where
   | reverse
   | iadd (vs : List Nat)
   | imul (k : Int)
+  /-- `lst.sort(key=f, reverse=rev)` inherited from `collections.UserList` (`self.data.sort(...)`): `keys` is
+  the key function tabulated by value id -/
+  | sort (keys : List Nat) (rev : Bool)
   deriving Repr
+
+/-- `list.sort(key=…, reverse=…)` (CPython `list_sort_impl`): stable; `reverse=True` reverses, sorts,
+reverses (so equal keys keep their original order) -/
+def sortedBy (keys : List Nat) (rev : Bool) (l : List Nat) : List Nat :=
+  if rev then ((l.reverse).mergeSort (fun a b => decide (lget keys a ≤ lget keys b))).reverse
+  else l.mergeSort (fun a b => decide (lget keys a ≤ lget keys b))
+
+/-- the tracked list is rearranged in place; no `_set_graph` / `_maybe_unset_graph` runs -/
+def ioPermute (w : World) (g : Nat) (k : IOKind) (l : List Nat) : World :=
+  w.setGr g (setIoList k (w.gr g) l)
 
 /-- run `f` at a position when there is one -/
 def atPos (o : Option Nat) (f : Nat → World) (w : World) : World :=
@@ -482,6 +507,7 @@ def ioMut (w : World) (g : Nat) (k : IOKind) : IOMut → World × Outcome
   | .reverse => guardOp false "" w (ioReverse w g k)
   | .iadd _ => (w, .raised "RuntimeError")
   | .imul _ => (w, .raised "RuntimeError")
+  | .sort keys rev => guardOp false "" w (ioPermute w g k (sortedBy keys rev (ioList k (w.gr g))))
 
 /-! ## Name authority  (`_name_authority.py`) -/
 
@@ -791,6 +817,82 @@ def setConst (w : World) (v : Nat) (locked : Bool) : World × Outcome :=
   guardOp false "" w (({ w with tensors := lset w.tensors t none, locked := lset w.locked t locked }).setVal v
     { w.val v with const := some t })
 
+/-! ## Node fields outside the use-def links  (`_core.py:2352-2399`, `_graph_containers.py:398-411`) -/
+
+/-- `Node.name = s` (`_core.py:2357-2362`): the owning graph's authority learns the name -/
+def setNodeName (w : World) (n : Nat) (s : Option String) : World × Outcome :=
+  guardOp false "" w <|
+    let w1 := w.setNode n { w.node n with name := s }
+    match (w.node n).graph, s with
+    | some g, some nm => w1.setGr g { w1.gr g with nNames := addName (w1.gr g).nNames nm }
+    | _, _ => w1
+
+/-- `Node.op_type = s` (`_core.py:2397-2399`): read by the name authority when it names the node -/
+def setOpType (w : World) (n : Nat) (s : String) : World × Outcome :=
+  guardOp false "" w (w.setNode n { w.node n with opType := s })
+
+/-- `Value.const_value = None` (`_core.py:3403-3413`) -/
+def clearConst (w : World) (v : Nat) : World × Outcome :=
+  guardOp false "" w (w.setVal v { w.val v with const := none })
+
+/-- replace the attribute dict of node `n` — the only write any attribute edit performs -/
+def setAttrs (w : World) (n : Nat) (as : List (String × List Nat)) : World :=
+  w.setNode n { w.node n with attrs := as }
+
+/-- dict assignment: an existing key keeps its position -/
+def attrPut (l : List (String × List Nat)) (k : String) (gs : List Nat) : List (String × List Nat) :=
+  if l.any (fun p => p.1 = k) then l.map (fun p => if p.1 = k then (k, gs) else p) else l ++ [(k, gs)]
+
+/-- `{attr.name: attr for attr in attrs}` (`Attributes.__init__`) -/
+def initAttrs (as : List (String × List Nat)) : List (String × List Nat) :=
+  as.foldl (fun d p => attrPut d p.1 p.2) []
+
+/-- `node.attributes[key] = attr`, `.add(attr)`, `.update({key: attr})`, `.setdefault(key, attr)` on an absent
+key (`_graph_containers.py:405-415`); `gs` = the graphs the attribute holds -/
+def attrSet (w : World) (n : Nat) (key : String) (gs : List Nat) : World × Outcome :=
+  guardOp false "" w (setAttrs w n (attrPut (w.node n).attrs key gs))
+
+/-- `del node.attributes[key]` / `.pop(key)` (`strict`: `KeyError` for an absent key) and `.pop(key, None)` -/
+def attrDel (w : World) (n : Nat) (key : String) (strict : Bool) : World × Outcome :=
+  guardOp (strict && !(w.node n).attrs.any (fun p => p.1 = key)) "KeyError" w
+    (setAttrs w n ((w.node n).attrs.filter (fun p => p.1 ≠ key)))
+
+/-- `node.attributes.clear()` -/
+def attrClear (w : World) (n : Nat) : World × Outcome := guardOp false "" w (setAttrs w n [])
+
+/-- the end of `Node(…, attributes=…)`: the attribute dict of the node that was just created -/
+def withAttrs (r : World × Outcome) (n : Nat) (as : List (String × List Nat)) : World × Outcome :=
+  match r.2 with
+  | .ok => (setAttrs r.1 n (initAttrs as), .ok)
+  | .raised _ => r
+
+/-! ## `Graph.sort()` with C12's sort model  (`_core.py:4073-4181`, `traversal.py:64-110`) -/
+
+/-- what `Graph.sort` reads from the inputs of a node: the producing node of each input -/
+def inputProducers (w : World) (n : Nat) : List (Option Nat) :=
+  (w.node n).inputs.map (fun o => o.bind (fun v => (w.val v).producer))
+
+/-- the node `n` with the graphs its attributes hold (in `attributes.values()` order), nested `fuel` levels deep -/
+def treeNode (w : World) : Nat → Nat → Sort.MNode
+  | 0, n => .mk n (inputProducers w n) []
+  | fuel + 1, n =>
+    .mk n (inputProducers w n)
+      (((w.node n).attrs.flatMap (fun p => p.2)).map (fun g => (g, (w.gr g).nodes.map (treeNode w fuel))))
+
+/-- the object tree `RecursiveGraphIterator(graph)` walks, in the encoding of `Model/Sort.lean`.  A nest deeper
+than the number of graphs would repeat a graph on a path (the library's traversal does not terminate on such a
+nest; it is outside the alphabet), so `graphs.length` levels are all there is. -/
+def treeOf (w : World) (g : Nat) : Sort.MGraph :=
+  (g, (w.gr g).nodes.map (treeNode w w.graphs.length))
+
+/-- `Graph.sort()`: C12's `sortModel` decides between `ValueError` (cycle; shared graph object) and the new
+order of every graph of the nest; then every node of every graph is checked (`_check_node_can_be_added`,
+`_core.py:4174-4176`) and the graphs are re-extended one by one (`_core.py:4179-4181`) -/
+def graphSort (w : World) (g : Nat) : World × Outcome :=
+  match Sort.sortModel (treeOf w g) with
+  | none => (w, .raised "ValueError")
+  | some orders => guardOp (sortBad w orders) "ValueError|AttributeError" w (sortApply w orders)
+
 /-! ## The operation alphabet -/
 
 inductive Op where
@@ -813,8 +915,22 @@ inductive Op where
   | remove (g : Nat) (ns : List Nat) (safe : Bool)
   | sortOk (orders : List (Nat × List Nat))
   | sortCycle
-  /-- an edit of a node's attributes (`node.attributes[k] = …`): no kernel state is touched -/
+  /-- an edit of a node's attributes that leaves the attribute dict as it is (kept from round 1; the real
+  edits are `attrSet` / `attrDel` / `attrClear` below) -/
   | attrEdit
+  /-- `Node(…, attributes=[…])`: `newNode` plus the attribute dict the node is created with -/
+  | newNodeAttrs (opType : String) (name : Option String) (inputs : List (Option Nat))
+      (numOutputs : Option Int) (outputs : Option (List Nat)) (graph : Option Nat)
+      (attrs : List (String × List Nat))
+  /-- `Graph.sort()` / `Function.sort()` decided by the model itself (C12's `sortModel` on `treeOf`) -/
+  | sort (g : Nat)
+  | setNodeName (n : Nat) (s : Option String)
+  | setOpType (n : Nat) (s : String)
+  | clearConst (v : Nat)
+  /-- edits of a node's attribute dict: `attrs` is the only field they write (`C01_attr_frame`) -/
+  | attrSet (n : Nat) (key : String) (gs : List Nat)
+  | attrDel (n : Nat) (key : String) (strict : Bool)
+  | attrClear (n : Nat)
   deriving Repr
 
 def step (w : World) : Op → World × Outcome
@@ -837,6 +953,15 @@ def step (w : World) : Op → World × Outcome
   | .sortOk orders => guardOp (sortBad w orders) "model" w (sortApply w orders)
   | .sortCycle => guardOp true "ValueError" w w
   | .attrEdit => guardOp false "" w w
+  | .newNodeAttrs opType name inputs numOutputs outputs graph attrs =>
+    withAttrs (newNode w opType name inputs numOutputs outputs graph) w.nodes.length attrs
+  | .sort g => graphSort w g
+  | .setNodeName n s => setNodeName w n s
+  | .setOpType n s => setOpType w n s
+  | .clearConst v => clearConst w v
+  | .attrSet n key gs => attrSet w n key gs
+  | .attrDel n key strict => attrDel w n key strict
+  | .attrClear n => attrClear w n
 
 /-! ## Composite editing calls  (`_convenience/__init__.py:281-548`) -/
 
@@ -870,6 +995,15 @@ def rauwManyChecked (w : World) (vs rs : List Nat) (rgo : Bool) : World × Outco
   if vs.length ≠ rs.length then (w, .raised "ValueError")
   else if rauwManyBad w rgo (vs.zip rs) then (w, .raised "ValueError")
   else rauwSeq w rgo (vs.zip rs)
+
+/-- `convenience.replace_all_uses_with` with the exact up-front check of `proposed_fixes/D82-exact.diff`: every
+pair is checked against the ownership the pairs before it will have produced (the code keeps a simulated table
+`value -> (is graph output, owning graph)`; the model runs the sequential loop as a dry run), then the loop runs.
+NOT what `stepConv (.rauwMany …)` does while the code is unfixed; the driver takes it for `"exact": true`, which the
+harness sends when a probe of the real function finds it all-or-nothing. -/
+def rauwManyExact (w : World) (vs rs : List Nat) (rgo : Bool) : World × Outcome :=
+  if vs.length ≠ rs.length then (w, .raised "ValueError")
+  else guardOp (decide ((rauwSeq w rgo (vs.zip rs)).2 ≠ .ok)) "ValueError" w (rauwSeq w rgo (vs.zip rs)).1
 
 /-- first target per value; `none` when one value is given two different targets
 (`_convenience/__init__.py:391-406`) -/
@@ -947,17 +1081,65 @@ def replaceNodesAndValues (w : World) (g ip : Nat) (oldNodes newNodes oldVals ne
   andThen (graphInsertAfter w2 g ip newNodes) fun w3 =>
   graphRemove w3 g oldNodes true
 
+/-- `Tape.initializer(tensor, name)` (`_tape.py:196-207`): `name or tensor.name`, a new value backed by the
+tensor, then (tape bound to a graph) `graph.register_initializer(value)` — a rejected registration leaves the
+new value behind (it is in `tape.initializers`) -/
+def tapeInitializer (w : World) (g : Option Nat) (name tname : Option String) (locked : Bool) :
+    World × Outcome :=
+  match (if falsy name then tname else name) with
+  | none => (w, .raised "ValueError")
+  | some nm =>
+    let v := w.vals.length
+    let t := w.tensors.length
+    let w1 := ({ w with tensors := lset w.tensors t tname, locked := lset w.locked t locked }).setVal v
+      { name := some nm, const := some t }
+    match g with
+    | none => (w1, .ok)
+    | some gi => initMut w1 gi (.register v)
+
+/-- `value.name = name` for each pair, stopping at the first rejected one -/
+def setNameSeq (w : World) : List (Nat × String) → World × Outcome
+  | [] => (w, .ok)
+  | (v, s) :: rest => andThen (setName w v (some s)) (fun w1 => setNameSeq w1 rest)
+
+/-- `Builder(graph).<OpType>(*inputs, _outputs=k | [names])` (`_tape.py:213-242`): `Tape.op` / `op_multi_out`
+(a `Node(…, num_outputs=k, graph=graph)`) and then one `Value.name = …` per requested output name -/
+def builderNode (w : World) (g : Option Nat) (opType : String) (inputs : List (Option Nat)) (k : Nat)
+    (names : Option (List String)) : World × Outcome :=
+  andThen (newNode w opType none inputs (some (k : Int)) none g) fun w1 =>
+    match names with
+    | none => (w1, .ok)
+    | some ns => setNameSeq w1 ((w1.node w.nodes.length).outputs.zip ns)
+
+/-- `replace_nodes_and_values` on top of the exact multi-pair check (proposed fix D82-exact) -/
+def replaceNodesAndValuesExact (w : World) (g ip : Nat) (oldNodes newNodes oldVals newVals : List Nat) :
+    World × Outcome :=
+  andThen (copyInfo w (oldVals.zip newVals)) fun w1 =>
+  andThen (rauwManyExact w1 oldVals newVals true) fun w2 =>
+  andThen (graphInsertAfter w2 g ip newNodes) fun w3 =>
+  graphRemove w3 g oldNodes true
+
 inductive ConvOp where
+  | tapeInitializer (g : Option Nat) (name tname : Option String) (locked : Bool)
+  | builderNode (g : Option Nat) (opType : String) (inputs : List (Option Nat)) (k : Nat)
+      (names : Option (List String))
   | rauwMany (vs rs : List Nat) (rgo : Bool)
+  | rauwManyExact (vs rs : List Nat) (rgo : Bool)
   | renameValues (vs : List Nat) (names : List String)
   | replaceNodesAndValues (g ip : Nat) (oldNodes newNodes oldVals newVals : List Nat)
+  | replaceNodesAndValuesExact (g ip : Nat) (oldNodes newNodes oldVals newVals : List Nat)
   deriving Repr
 
 def stepConv (w : World) : ConvOp → World × Outcome
+  | .tapeInitializer g name tname locked => tapeInitializer w g name tname locked
+  | .builderNode g opType inputs k names => builderNode w g opType inputs k names
   | .rauwMany vs rs rgo => rauwMany w vs rs rgo
+  | .rauwManyExact vs rs rgo => rauwManyExact w vs rs rgo
   | .renameValues vs names => renameValues w vs names
   | .replaceNodesAndValues g ip oldNodes newNodes oldVals newVals =>
     replaceNodesAndValues w g ip oldNodes newNodes oldVals newVals
+  | .replaceNodesAndValuesExact g ip oldNodes newNodes oldVals newVals =>
+    replaceNodesAndValuesExact w g ip oldNodes newNodes oldVals newVals
 
 /-- the whole alphabet: single calls and composite calls -/
 inductive AnyOp where
